@@ -241,6 +241,20 @@ def weak_vector(r, nm):
     return math.hypot(vs, vc) <= 1e-4 * tot
 
 
+def peak_tie(r):
+    """Peak detection is a float comparison: adjacent (near-)equal values of E(f) or two (near-)equal peaks make it ambiguous under
+    a rescaling that rounds differently."""
+    S = r["E"].sum(axis=1)
+    tol = (1e-9 if r["dtype"] == "float64" else 1e-5) * float(S.max() or 1.0)
+    if (np.abs(np.diff(S)) <= tol).any():
+        return True
+    pk = sorted((S[q] for q in range(1, len(S) - 1) if S[q - 1] < S[q] > S[q + 1]), reverse=True)
+    return len(pk) >= 2 and pk[0] - pk[1] <= tol
+
+
+PEAK_BASED = {"tp", "tpd", "fp", "dpm", "dpspr", "gamma"}
+
+
 def dp_tie(r):
     cs = r["E"].sum(axis=0)
     srt = np.sort(cs)[::-1]
@@ -249,6 +263,9 @@ def dp_tie(r):
 
 def cmp_inv(ck, law, nm, bv, ov, r, case, rel, other_hs=None):
     if math.isnan(bv) and math.isnan(ov):
+        return
+    if law == "scale" and nm in PEAK_BASED and peak_tie(r):
+        ck.ambiguous += 1
         return
     if nm in ANGLES:
         if nm == "dp" and dp_tie(r):
